@@ -57,6 +57,23 @@ def chan(old_mean, old_var, old_count, bm, bv, bn):
     return new_mean, T.div(m2, tot), tot
 
 
+def _stored(r, it, key, new_term, returned) -> bool:
+    """The returned graph state is <state returned by the wrapped env>.replace_aux({key: new}) (or the same spelled
+    .replace(aux=<that state>.aux.copy({key: new})))."""
+    inner_gs = T.mk_index(it, T.ZERO)
+    want = ("dict", ((T.const(key), new_term),))
+    for e in r.events:
+        if e.kind != "call" or e.term != returned:
+            continue
+        if e.name.endswith(".replace_aux") and e.args and e.args[0] == want and e.recv == inner_gs:
+            return True
+        if e.name.endswith(".replace") and e.recv == inner_gs and not e.args and len(e.kwargs) == 1 and e.kwargs[0][0] == "aux":
+            a = e.kwargs[0][1]
+            if a[0] == "call" and a[2] == (want,) and not a[3] and isinstance(a[1], tuple) and a[1] == T.mk_attr(T.mk_attr(inner_gs, "aux"), "copy"):
+                return True
+    return False
+
+
 def run(chk: Check, model):
     chk.rule("C19.env", "Environment.step dataflow (A4): action -> get_output -> third argument of graph.step; second argument is the supervisor's step state of the pre-step "
                         "graph state; reward / truncated / terminated from the stepped state; observation and info from the post-step state; returned in gym order")
@@ -281,8 +298,8 @@ def run(chk: Check, model):
         ok = len(norm) == 1 and norm[0].recv == new.term and norm[0].args == (T.mk_index(it, T.ONE),) and dict(norm[0].kwargs) == {"clip": T.TRUE, "subtract_mean": T.TRUE} and ret[1][1] == norm[0].term
         ok = ok or (not norm and ret[1][1] == normalize_expansion(model, new.term, T.mk_index(it, T.ONE), True, True))
         chk.add("C19.moments", "obs step: normalised with the updated state (clip, subtract mean)", ok, "the returned observation must be new_state.normalize(obs, clip=True, subtract_mean=True)", chk.loc(fi))
-        aux = [e for e in r.events if e.kind == "call" and e.name.endswith(".replace_aux") and e.args and e.args[0] == ("dict", ((T.const("norm_obs"), new.term),))]
-        chk.add("C19.moments", "obs step: updated state stored", len(aux) == 1 and ret[1][0] == aux[0].term, "the updated statistics must be stored under aux['norm_obs'] of the returned state", chk.loc(fi))
+        chk.add("C19.moments", "obs step: updated state stored", _stored(r, it, "norm_obs", new.term, ret[1][0]), "the updated statistics must be stored under aux['norm_obs'] of the "
+                "state the wrapped environment returned, and that state handed back", chk.loc(fi))
     fi0, r0 = _r(model, "rl.NormalizeVecObservationWrapper.reset")
     nv = [e for e in r0.events if e.kind == "call" and e.name == "new:NormalizeVec"]
     if len(nv) in (1, 2):
@@ -313,6 +330,9 @@ def run(chk: Check, model):
     if new is not None:
         it = [e for e in r.events if e.kind == "call" and e.name == "self._env.step"][0].term
         f = dict(new.term[2])
+        chk.add("C19.moments", "reward step: updated state stored", _stored(r, it, "norm_reward", new.term, r.ret[1][0] if r.ret[0] == "tuple" and r.ret[1] else T.NONE),
+                "the updated statistics must be stored under aux['norm_reward'] of the state the wrapped environment returned (not of the incoming state: the inner "
+                "wrappers' own aux updates of this step would be lost), and that state handed back", chk.loc(fi))
         chk.add("C19.moments", "reward step: return estimate = old * gamma * (1 - done) + reward", f.get("return_val") == ret_val(it, r), f"return_val' = {T.show(f.get('return_val', T.NONE))[:200]}", chk.loc(fi))
         norm = [e for e in r.events if e.kind == "call" and e.name.endswith(".normalize")]
         ok = len(norm) == 1 and norm[0].recv == new.term and norm[0].args == (T.mk_index(it, T.const(2)),) and dict(norm[0].kwargs) == {"clip": T.TRUE, "subtract_mean": T.FALSE} and r.ret[1][2] == norm[0].term
